@@ -82,6 +82,18 @@ class ClassInfo:
         return "<Class %s>" % self.qual
 
 
+def assign_order(tree):
+    """node._ord = position in a source-order (pre-order) traversal of the tree AS ANALYSED (after normalisation).  Rules that compare
+    positions use this instead of line numbers: normalisation moves statements without renumbering them."""
+    k = 0
+    stack = [tree]
+    while stack:
+        n = stack.pop()
+        n._ord = k
+        k += 1
+        stack.extend(reversed(list(ast.iter_child_nodes(n))))
+
+
 class Program:
     def __init__(self, root, overrides=None, normalise=True):
         """root: path to repo; overrides: {relpath under src/gstools: source text} (self-test mutants)."""
@@ -141,6 +153,8 @@ class Program:
                         self.norm_info[rel] = norm.normalise(rel, mod.tree, self.frozen, pure, sigs)
                     except RecursionError as e:  # pragma: no cover
                         raise AnalysisError("normalisation of %s failed: %s" % (rel, e))
+        for mod in self.modules.values():
+            assign_order(mod.tree)
         for mod in self.modules.values():
             self._index(mod)
 
